@@ -55,9 +55,9 @@ func TestC13(t *testing.T) {
 	defer worker.Close()
 	nv := 2
 	if env.Thorough() {
-		nv = 12
+		nv = 6
 	}
-	tp := &twoPass{id: "C13", salt: 13, checks: env.Pick(240, 10000), rec: rec,
+	tp := &twoPass{id: "C13", salt: 13, checks: env.Pick(240, 2400), rec: rec,
 		gen:  func(t *rapid.T) *flowCase { return genFlowCase(t, gogen.ConcurrentProfile(off), nv) },
 		unit: c13Unit,
 		judge: func(rt *rapid.T, c *flowCase, res *native.Result) {
